@@ -172,6 +172,9 @@ func wireDiff(d Diff, fault bool) *starknet.StateDiff {
 			CompiledClassHash felt.CasmClassHash   `json:"compiled_class_hash"`
 		}{felt.SierraClassHash(*F(x[0])), felt.CasmClassHash(*F(x[1]))})
 	}
+	if len(d.C0) > 0 { // exact capacity: the heap model gives a wire slice cap == len
+		sd.OldDeclaredContracts = make([]*felt.Felt, 0, len(d.C0))
+	}
 	for _, x := range d.C0 {
 		sd.OldDeclaredContracts = append(sd.OldDeclaredContracts, F(x))
 	}
@@ -824,6 +827,7 @@ type runner struct {
 	rp     replay
 	fails  int
 	script []Op
+	heapOn bool // compare the real object graph with the heap model after every op of a sequential case
 }
 
 func (rn *runner) fail(class, what string, noInput bool) {
@@ -1231,6 +1235,10 @@ func (rn *runner) seqCase(caseSeed uint64, nops int, newState bool) {
 	var shadow []slot
 	modelChain := "chain -"
 	var helds []*held
+	var ht *heapTie
+	if rn.heapOn {
+		ht = newHeapTie()
+	}
 	before := rn.c.NViolations()
 	for i := 0; i < nops && rn.c.NViolations() == before; i++ {
 		height, err := node.BC.Height()
@@ -1267,6 +1275,7 @@ func (rn *runner) seqCase(caseSeed uint64, nops int, newState bool) {
 			modelChain = reply[1]
 			shadow = parseShadow(modelChain)
 			rn.compareChain(st, modelChain, o.Line())
+			rn.heapCheck(ht, st, shadow, helds, o.Line())
 			c.Count(o.Line()+"|"+modelChain, o.Why != "extend" && o.Why != "bootstrap")
 			if len(shadow) > 1 {
 				c.Hist["chain-length>=2"]++
@@ -1287,6 +1296,7 @@ func (rn *runner) seqCase(caseSeed uint64, nops int, newState bool) {
 				modelChain = reply[1]
 				shadow = parseShadow(modelChain)
 				rn.compareChain(st, modelChain, a.Line())
+				rn.heapCheck(ht, st, shadow, helds, a.Line())
 			}
 		case "revert":
 			if height <= 1 {
@@ -1306,6 +1316,7 @@ func (rn *runner) seqCase(caseSeed uint64, nops int, newState bool) {
 				modelChain = reply[1]
 				shadow = parseShadow(modelChain)
 				rn.compareChain(st, modelChain, a.Line())
+				rn.heapCheck(ht, st, shadow, helds, a.Line())
 			}
 		case "snap":
 			v := st.SnapshotForBlock(o.N)
@@ -1328,9 +1339,18 @@ func (rn *runner) seqCase(caseSeed uint64, nops int, newState bool) {
 			c.Count(o.Line()+"|"+got, v.Length() > 0)
 			h := &held{view: v, vid: vid, n: o.N, canon: got, fp: fingerprint(&v)}
 			helds = append(helds, h)
+			rn.heapCheck(ht, st, shadow, helds, o.Line())
 			if o.Reads {
 				rn.checkReads(node, h, rng)
 				rn.checkLookups(h)
+				rn.heapReader(ht, node, st, shadow, helds, len(helds)-1, rng)
+				if rn.script != nil { // directed: overlay states through every view held, old ones included
+					for round := 0; round < 2; round++ {
+						for hi := range helds {
+							rn.heapReader(ht, node, st, shadow, helds, hi, rng)
+						}
+					}
+				}
 			}
 		}
 		// immutability as observed: every view handed out so far still has its fingerprint and content
@@ -1592,7 +1612,78 @@ func directed() [][]Op {
 		{K: "apply", UK: "B", Bn: 4, Opc: 3, ID: 0x202, Why: "extend", Items: []Item{{Hash: 104, Tx: 4, RHash: 104, Rc: 10008, D: Diff{S: [][3]uint64{{17, 1, 1}}}}}},
 		{K: "snap", N: 3, Why: "head+1", Reads: true},
 	}
-	return [][]Op{two, three, merge, reverted}
+	// ---- heap-level hot spots (aliasing): every op is followed by the comparison of the real object graph
+	// with the heap model's, every snap with Reads by overlay states created through ALL views held ----
+	it := func(h, tx uint64, d Diff) Item { return Item{Hash: h, Tx: tx, RHash: h, Rc: 2 * (tx + 6000), D: d} }
+	st := func(x ...[3]uint64) [][3]uint64 { return x }
+	snap := Op{K: "snap", N: 3, Why: "head+1", Reads: true}
+	// (a) deltas merged into a tip that outstanding views hold: the same contract again (Merge writes into the
+	// inner storage map it cloned), declared-v0 appends, class map shared by reference / copied, no-change
+	deltaIntoHeldTip := []Op{
+		{K: "apply", UK: "B", Bn: 3, Opc: 3, ID: 0x201, Why: "bootstrap", Cls: [][2]uint64{{40, 400}},
+			Items: []Item{it(101, 1, Diff{S: st([3]uint64{16, 1, 5}, [3]uint64{16, 2, 6}), N: [][2]uint64{{16, 1}}, C0: []uint64{40}})}},
+		snap,
+		{K: "apply", UK: "D", Bn: 3, Bt: 1, Opc: 3, ID: 0x201, Why: "delta-tip",
+			Items: []Item{it(102, 2, Diff{S: st([3]uint64{16, 1, 7}, [3]uint64{16, 3, 8}), C0: []uint64{41}})}},
+		snap,
+		{K: "apply", UK: "D", Bn: 3, Bt: 2, Opc: 3, ID: 0x201, Why: "delta-tip", Cls: [][2]uint64{{41, 401}},
+			Items: []Item{it(103, 3, Diff{S: st([3]uint64{17, 1, 1}, [3]uint64{16, 1, 9}), C0: []uint64{42, 43}}), it(104, 4, Diff{N: [][2]uint64{{16, 2}}})}},
+		snap,
+		{K: "apply", UK: "N", Bn: 3, Opc: 3, Why: "nochange-classes-tip", Cls: [][2]uint64{{41, 401}}}, // already held: no-op
+		{K: "apply", UK: "N", Bn: 3, Opc: 3, Why: "nochange-classes-tip", Cls: [][2]uint64{{42, 402}}}, // struct copy, Block by reference
+		snap,
+		{K: "apply", UK: "D", Bn: 3, Bt: 4, Opc: 3, ID: 0x201, Why: "delta-tip", Items: []Item{it(105, 5, Diff{S: st([3]uint64{16, 2, 1}), C0: []uint64{40}})}},
+		snap,
+		// declared-v0 appends with and without spare capacity in the merged diff's backing array:
+		// 5 (cap 6), +1 in place, +2 (grown to 12), +1 in place; then a delta on top (fresh array again)
+		{K: "apply", UK: "B", Bn: 4, Opc: 3, ID: 0x202, Why: "extend", Items: []Item{
+			it(106, 6, Diff{C0: []uint64{40, 41, 42, 43, 50}}), it(107, 7, Diff{C0: []uint64{51}}),
+			it(108, 8, Diff{C0: []uint64{40, 41}}), it(109, 9, Diff{C0: []uint64{42}})}},
+		snap,
+		{K: "apply", UK: "D", Bn: 4, Bt: 4, Opc: 3, ID: 0x202, Why: "delta-tip", Items: []Item{it(110, 10, Diff{C0: []uint64{43}}), it(111, 11, Diff{C0: []uint64{50, 51}})}},
+		snap,
+	}
+	// (b) a slot below the tip replaced while views hold the old suffix: the new node points at the OLD older nodes
+	blk := func(bn, id, h, tx uint64, d Diff) Op {
+		return Op{K: "apply", UK: "B", Bn: bn, Opc: 3, ID: id, Why: "extend", Items: []Item{it(h, tx, d)}}
+	}
+	replaceBelowTip := []Op{
+		blk(3, 0x201, 101, 1, Diff{S: st([3]uint64{16, 1, 5})}), blk(4, 0x202, 102, 2, Diff{S: st([3]uint64{16, 1, 6})}),
+		blk(5, 0x203, 103, 3, Diff{S: st([3]uint64{16, 2, 7})}), snap,
+		blk(4, 0x204, 104, 4, Diff{S: st([3]uint64{16, 1, 8})}), // new round at 4: truncates 5, shares node 3
+		snap, blk(5, 0x205, 105, 5, Diff{N: [][2]uint64{{16, 3}}}), {K: "snap", N: 4, Why: "arbitrary", Reads: true},
+		blk(3, 0x206, 106, 6, Diff{S: st([3]uint64{17, 1, 1})}), // new round at the oldest slot: nothing shared
+		snap,
+	}
+	// (c) the head advances: a view trimmed by length shares all nodes; AdvanceTo rebuilds fresh nodes over the same
+	// entries while a view starts at the pruned node; then everything is dropped
+	advancePrune := []Op{
+		blk(3, 0x201, 101, 1, Diff{S: st([3]uint64{16, 1, 5})}), blk(4, 0x202, 102, 2, Diff{S: st([3]uint64{16, 1, 6})}),
+		blk(5, 0x203, 103, 3, Diff{S: st([3]uint64{16, 2, 7})}), snap,
+		{K: "grow"}, {K: "snap", N: 4, Why: "head+1", Reads: true},
+		{K: "advance", N: 4, Why: "to-head"}, {K: "snap", N: 4, Why: "head+1", Reads: true},
+		{K: "apply", UK: "D", Bn: 5, Bt: 1, Opc: 4, ID: 0x203, Why: "delta-tip", Items: []Item{it(104, 4, Diff{S: st([3]uint64{16, 2, 9})})}},
+		{K: "snap", N: 4, Why: "head+1", Reads: true}, {K: "snap", N: 5, Why: "arbitrary", Reads: true},
+		{K: "advance", N: 5, Why: "arbitrary"}, {K: "snap", N: 5, Why: "arbitrary", Reads: true},
+		{K: "advance", N: 9, Why: "arbitrary"}, {K: "snap", N: 9, Why: "arbitrary"},
+		{K: "apply", UK: "B", Bn: 4, Opc: 4, ID: 0x207, Why: "bootstrap", Items: []Item{it(107, 7, Diff{})}}, {K: "snap", N: 4, Why: "head+1", Reads: true},
+	}
+	// (d) class maps carried across blocks and rounds
+	classMaps := []Op{
+		{K: "apply", UK: "B", Bn: 3, Opc: 3, ID: 0x201, Why: "bootstrap", Cls: [][2]uint64{{40, 400}, {41, 401}}, Items: []Item{it(101, 1, Diff{C: [][2]uint64{{50, 60}}})}},
+		snap,
+		{K: "apply", UK: "D", Bn: 3, Bt: 1, Opc: 3, ID: 0x201, Why: "delta-tip", Items: []Item{it(102, 2, Diff{C: [][2]uint64{{51, 61}}})}}, // class map by reference
+		snap,
+		{K: "apply", UK: "B", Bn: 4, Opc: 3, ID: 0x202, Why: "extend", Cls: [][2]uint64{{42, 402}}, Items: []Item{it(103, 3, Diff{})}},
+		{K: "apply", UK: "D", Bn: 4, Bt: 1, Opc: 3, ID: 0x202, Why: "delta-tip", Cls: [][2]uint64{{43, 430}, {42, 403}}, Items: []Item{it(104, 4, Diff{})}}, // copied, one overridden
+		snap,
+		{K: "apply", UK: "N", Bn: 4, Opc: 3, Why: "nochange-classes-tip", Cls: [][2]uint64{{50, 500}}},
+		{K: "apply", UK: "B", Bn: 4, Opc: 3, ID: 0x202, Why: "same-round-more-classes", Cls: [][2]uint64{{40, 1}, {41, 2}, {42, 3}, {43, 4}}, Items: []Item{it(105, 5, Diff{})}},
+		snap,
+		{K: "apply", UK: "B", Bn: 3, Opc: 3, ID: 0x201, Why: "same-round-not-richer", Cls: [][2]uint64{{40, 400}}, Items: []Item{it(106, 6, Diff{})}}, // preserved
+		snap,
+	}
+	return [][]Op{two, three, merge, reverted, deltaIntoHeldTip, replaceBelowTip, advancePrune, classMaps}
 }
 
 func main() {
@@ -1602,7 +1693,10 @@ func main() {
 	}
 	or := hx.StartOracle(c.OraclePath)
 	defer or.Close()
-	rn := &runner{c: c, or: or}
+	rn := &runner{c: c, or: or, heapOn: os.Getenv("C20_NO_HEAP") == ""}
+	if msg := heapSelfTest(); msg != "" {
+		hx.Fatalf("heap tie: %s", msg)
+	}
 	if c.ReplayIn != "" {
 		var rp replay
 		c.LoadReplay(&rp)
@@ -1628,15 +1722,24 @@ func main() {
 		rn.seqCase(7, len(sc), i%2 == 1)
 	}
 	rn.script = nil
+	if os.Getenv("C20_DIRECTED_ONLY") != "" { // development aid
+		c.Finish("directed cases only")
+	}
+	ran := [3]int{}
 	for i := 0; i < nSeq && time.Since(start) < budget*5/10; i++ {
 		rn.seqCase(rng.U64(), 60+rng.Intn(60), i%2 == 1)
+		ran[0]++
 	}
+	tSeq := time.Since(start)
 	for i := 0; i < nConc && time.Since(start) < budget*7/10; i++ {
 		rn.concCase(rng.U64(), 150+rng.Intn(150), i%2 == 1)
+		ran[1]++
 	}
 	for i := 0; i < nPoll && time.Since(start) < budget; i++ {
 		rn.pollCase(rng.U64(), 40+rng.Intn(40), i%2 == 1)
+		ran[2]++
 	}
+	c.Extra["cases_run"] = map[string]any{"sequential": ran[0], "concurrent": ran[1], "poller": ran[2], "sequential_wall_s": tSeq.Seconds()}
 	c.Extra["backends"] = "both state backends alternate (WithNewState false/true) for the canonical base"
 	c.Extra["universe"] = map[string]any{"contracts": addrs, "deployed_in_base": baseDeploy, "slots": slots, "class_hashes": classes, "tx_hashes": []uint64{hashLo, hashHi - 1}, "queries_per_state": len(allQueries)}
 	c.Finish("sequential cases: 60-120 ops each (62% ApplyUpdate of every variant incl. every rejected call, AdvanceTo to the head or arbitrary, " +
